@@ -1,7 +1,7 @@
 (* c11_driver.ml — runs the extracted A* / metric models (coq/Model/AStar.v, Metric.v).
    Input lines (integers hex, indices/counts decimal):
      path <N> { <deg> { <nbr> <edge> }* }^N  <nH> { <a> <b> <h(a,b) hex> }*  <nQ> { <start> <goal> <early 0/1> <maxits> }*
-        -> per query  q<i> P <margin hex | N> <nodes list> <edges list> <cost hex>   |  q<i> E  |  q<i> C
+        -> per query  q<i> P <margin hex | N> <nodes list> <edges list> <cost hex>   |  q<i> E <margin hex | N>  |  q<i> C
      chk <nT> { <x|N> <y|N> }*  <nC> { <start> <goal> <nodes list> <edges list> }*
         -> ok <list of 0/1>      (as_valid_path with joined = as_joined tab)
      metric <scale hex> <n> { ax ay bx by }*      (coordinates = hex numerators over scale)
@@ -37,7 +37,7 @@ let cmd_path c =
     | AS_Path (ns, es, mg) ->
       out key (sp [ "P"; (match mg with None -> "N" | Some m -> s_z m);
                     s_list s_nat ns; s_list s_nat es; s_z (as_chain_cost hf ns) ])
-    | AS_PathFindingError -> out key "E"
+    | AS_PathFindingError mg -> out key (sp [ "E"; (match mg with None -> "N" | Some m -> s_z m) ])
     | AS_Crash -> out key "C"
   done
 
